@@ -240,10 +240,10 @@ def run_herd(ctx, c):
 
 def shard(ctx):
     thorough = ctx.tier == "thorough"
-    drive(ctx, unit_case(), lambda c: run_unit(ctx, c), 60000 if thorough else 1500, tag="unit")
+    drive(ctx, unit_case(), lambda c: run_unit(ctx, c), 60000 if thorough else 4000, tag="unit")
     codes = model.iso3_list() + ["WOR"]
     codes = [("SWZ" if c == "SWT" else c) for c in codes]
-    drive(ctx, herd_case(codes), lambda c: run_herd(ctx, c), 700 if thorough else 22, shrink=thorough, tag="herd")
+    drive(ctx, herd_case(codes), lambda c: run_herd(ctx, c), 700 if thorough else 60, shrink=thorough, tag="herd")
     # the world aggregate has every species: always run it at partial supply
     from vlib.harness import Violation
     for i, s_ in enumerate(herd.STRATEGIES):
